@@ -605,6 +605,22 @@ func (d *drv) clearScan(extra [][]byte) []string {
 			names = append(names, "log")
 		}
 	}
+	// sealed secrets must need the private passphrase: whatever opens with the public crypto key alone is as good as clear
+	for _, wn := range d.wnames {
+		if w := d.wallets[wn]; w != nil && w.mgr != nil {
+			us := keystore.VerifPublicUnseals(w.mgr)
+			ids := make([]string, 0, len(us))
+			for id := range us {
+				ids = append(ids, id)
+			}
+			sort.Strings(ids)
+			for _, id := range ids {
+				for _, k := range us[id] {
+					found = append(found, fmt.Sprintf("store:%s keystore %s: %s opens with the public passphrase alone", w.name, id[:8], k))
+				}
+			}
+		}
+	}
 	all := append(append([][]byte{}, d.needles...), extra...)
 	for _, n := range all {
 		if len(n) < 6 {
